@@ -3,7 +3,8 @@
 A  Props/C25.v over MiniGo (coq/Model/C25.v): the conversion (fmtToBuiltin over the GENERATED
    printFuncs table, fncallStartingLowerCase, funcLitToLambdaExpr, commandStyleFirst, main
    unwrapping, scope tracking as implemented) and an evaluator with Go / XGo name resolution:
-   gopstyle_preserves under no_shadow / no_case_twin / no_builtin_clash, *_refuted witnesses,
+   C25_gopstyle_preserves under no_shadow / no_case_twin / no_builtin_clash (full: incl. the deletion
+   of the unused fmt import), C25_scope_tracking_invisible, *_refuted witnesses,
    table obligations over Gen/C25.v (regenerated from x/format and cl/builtin.go on every run).
 B  shape K-diff: real x/format.GopstyleSource output, parsed again and projected to MiniGo, vs the
    extracted model, on deterministic + seeded MiniGo programs.
@@ -27,10 +28,10 @@ CLAIM = {
             "regenerating its tables on every run and by comparing its output tree with the real GopstyleSource output on "
             "generated programs; behaviour of generated and handwritten programs is checked end to end (go build + run).",
     "note": "Kernel theorem + explored remainder: the printer/parser round trip, XGo's compiler and everything outside "
-            "MiniGo (loops, switch, pointers, generics...) are only exercised by the behaviour runs. The semantic theorem is "
-            "about the converted tree before the deletion of an unused fmt import (deletion safety is a separate syntactic "
-            "theorem) and before printing; what re-parsing changes (leading var statements of an unwrapped main) is modelled "
-            "for the shape comparison and reported as a finding.",
+            "MiniGo (loops, switch, pointers, generics...) are only exercised by the behaviour runs. The semantic theorem "
+            "(C25_gopstyle_preserves, incl. the deletion of the unused fmt import) is about the converted TREE; what re-parsing "
+            "the printed text changes (leading var statements of an unwrapped main become package-level) is modelled for the "
+            "shape comparison (printed_view) and reported as a finding, not covered by the theorem.",
 }
 
 
@@ -144,7 +145,7 @@ def run(ctx):
         cases.append((name, G.render(decls), G.model_line(decls), "deterministic"))
     for name, src in G.RAW:
         cases.append((name, src, None, "raw"))
-    nrand = ctx.n(24, 800)
+    nrand = ctx.n(24, 400)
     shape = {}
     for i in range(nrand):
         g = G.Gen(ctx.rng)
